@@ -1308,6 +1308,170 @@ func runE(rest string) string {
 	return out
 }
 
+var errType = reflect.TypeOf((*error)(nil)).Elem()
+
+func intsOf(vs []reflect.Value) []string {
+	out := []string{}
+	for _, v := range vs {
+		out = append(out, strconv.FormatInt(v.Int(), 10))
+	}
+	return out
+}
+
+// C nargs variadic l nout lastIsErr errNonNil
+func runC(f []string) string {
+	if len(f) != 6 {
+		return "BADLINE"
+	}
+	nargs, variadic, l, nout, lastIsErr, errNonNil := atoi(f[0]), f[1] == "1", atoi(f[2]), atoi(f[3]), f[4] == "1", f[5] == "1"
+	if variadic && nargs == 0 {
+		return "BADLINE"
+	}
+	intT := reflect.TypeOf(int(0))
+	in := make([]reflect.Type, nargs)
+	for i := range in {
+		in[i] = intT
+	}
+	if variadic {
+		in[nargs-1] = reflect.SliceOf(intT)
+	}
+	out := make([]reflect.Type, nout)
+	for i := range out {
+		out[i] = intT
+	}
+	if lastIsErr && nout > 0 {
+		out[nout-1] = errType
+	}
+	var fixed, tail []string
+	fn := reflect.MakeFunc(reflect.FuncOf(in, out, variadic), func(args []reflect.Value) []reflect.Value {
+		fixed, tail = []string{}, []string{}
+		if variadic {
+			fixed = intsOf(args[:nargs-1])
+			last := args[nargs-1]
+			for i := 0; i < last.Len(); i++ {
+				tail = append(tail, strconv.FormatInt(last.Index(i).Int(), 10))
+			}
+		} else {
+			fixed = intsOf(args)
+		}
+		res := make([]reflect.Value, nout)
+		for i := range res {
+			res[i] = reflect.ValueOf(70 + i)
+		}
+		if lastIsErr && nout > 0 {
+			if errNonNil {
+				res[nout-1] = reflect.ValueOf(fmt.Errorf("boom")).Convert(errType)
+			} else {
+				res[nout-1] = reflect.Zero(errType)
+			}
+		}
+		return res
+	})
+	vm := goja.New()
+	vm.Set("f", fn.Interface())
+	args := make([]string, l)
+	for i := range args {
+		args[i] = strconv.Itoa(10 + i)
+	}
+	var v goja.Value
+	var err error
+	if m := recoverStr(func() { v, err = vm.RunString("f(" + strings.Join(args, ",") + ")") }); m != "" {
+		return m
+	}
+	res := ""
+	switch {
+	case err != nil:
+		res = "throw"
+	case goja.IsUndefined(v):
+		res = "undefined"
+	default:
+		if o, ok := v.(*goja.Object); ok && o.ClassName() == "Array" {
+			var xs []string
+			n := int(o.Get("length").ToInteger())
+			for i := 0; i < n; i++ {
+				xs = append(xs, o.Get(strconv.Itoa(i)).String())
+			}
+			res = "array " + strings.Join(xs, ",")
+		} else {
+			res = "value " + v.String()
+		}
+	}
+	return "fixed=[" + strings.Join(fixed, ",") + "] tail=[" + strings.Join(tail, ",") + "] -> " + res
+}
+
+// J nfixed variadic tail nout lastIsErr threw
+func runJ(f []string) string {
+	if len(f) != 6 {
+		return "BADLINE"
+	}
+	nfixed, variadic, tail, nout, lastIsErr, threw := atoi(f[0]), f[1] == "1", atoi(f[2]), atoi(f[3]), f[4] == "1", f[5] == "1"
+	intT := reflect.TypeOf(int(0))
+	in := make([]reflect.Type, nfixed)
+	for i := range in {
+		in[i] = intT
+	}
+	if variadic {
+		in = append(in, reflect.SliceOf(intT))
+	}
+	out := make([]reflect.Type, nout)
+	for i := range out {
+		out[i] = intT
+	}
+	if lastIsErr && nout > 0 {
+		out[nout-1] = errType
+	}
+	ft := reflect.FuncOf(in, out, variadic)
+	vm := goja.New()
+	src := "var seen = null; (function() { seen = Array.prototype.slice.call(arguments); return 7 })"
+	if threw {
+		src = "var seen = null; (function() { seen = Array.prototype.slice.call(arguments); throw new Error('x') })"
+	}
+	jsf, err := vm.RunString(src)
+	if err != nil {
+		return "JSERR"
+	}
+	dst := reflect.New(ft)
+	if err := vm.ExportTo(jsf, dst.Interface()); err != nil {
+		return "err:" + common.OneLine(err.Error())
+	}
+	args := make([]reflect.Value, 0, nfixed+1)
+	for i := 0; i < nfixed; i++ {
+		args = append(args, reflect.ValueOf(10+i))
+	}
+	var res []reflect.Value
+	m := recoverStr(func() {
+		if variadic {
+			for k := 0; k < tail; k++ {
+				args = append(args, reflect.ValueOf(100+k))
+			}
+		}
+		res = dst.Elem().Call(args)
+	})
+	seen := []string{}
+	if s := vm.Get("seen"); s != nil && !goja.IsNull(s) {
+		o := s.ToObject(vm)
+		n := int(o.Get("length").ToInteger())
+		for i := 0; i < n; i++ {
+			seen = append(seen, o.Get(strconv.Itoa(i)).String())
+		}
+	}
+	outc := ""
+	if m != "" {
+		outc = "gopanic"
+	} else {
+		first := "zero"
+		if nout > 0 && !(lastIsErr && nout == 1) && res[0].Int() == 7 {
+			first = "js"
+		}
+		e := "nil"
+		if lastIsErr && nout > 0 && !res[nout-1].IsNil() {
+			e = "set"
+		}
+		outc = "first=" + first + " err=" + e
+	}
+	return "args=[" + strings.Join(seen, ",") + "] -> " + outc
+}
+
 // M <s|i> k=v,k=v | ops : histories on a wrapped map[string]S / map[int]S (no element cache: every read is a fresh copy)
 func runM(f []string) string {
 	if len(f) < 3 || f[2] != "|" {
@@ -1476,6 +1640,10 @@ func main() {
 			return runX(f[1:])
 		case "M":
 			return runM(f[1:])
+		case "C":
+			return runC(f[1:])
+		case "J":
+			return runJ(f[1:])
 		case "E":
 			return runE(strings.TrimSpace(strings.TrimPrefix(line, "E")))
 		}
